@@ -333,6 +333,7 @@ def h_server_hello(c, n_ext, record_version):
     if c.native:
         return
     msg, f = hello_body(c, 2, n_ext)
+    c.I.loops.pop(SE + ".handle_tls_server_hello", None)      # bounded here: the extension loop is unrolled, not cut
     rec = c.obj("tlexport.tlsrecord.TlsRecord", binary=msg, record_type=0x16, record_version=const(bytes.fromhex(record_version)),
                 record_length=const(b"\x00\x00"), raw=cat(const(b"\x16"), const(bytes.fromhex(record_version)), const(b"\x00\x00"), msg), metadata=[], isserver=True)
     gen = []
